@@ -116,6 +116,18 @@ def run(ctx: Ctx) -> None:
                for c in calls_in(sim.node))
     r.check(hop1 and "detect_data_hazards" in sim.params, "RiscvSimulation->state", sim.loc(),
             "RiscvSimulation does not pass detect_data_hazards=detect_data_hazards to the architectural state")
+    # every other place that builds an architectural state (a rewind on reload, a copy) must hand the same flag on: a state built
+    # without it runs with the default (detection on)
+    stc = m.cls("RiscvArchitecturalState")
+    for f in all_functions(m, skip_cli=True):
+        if f is sim:
+            continue
+        for c in calls_in(f.node):
+            if isinstance(c.func, (ast.Name, ast.Attribute)) and m.resolve_class(f.module, c.func) is stc:
+                a = arg_of(c, st, "detect_data_hazards")
+                ok = a is not None and not isinstance(a, ast.Constant)
+                r.check(ok, f"{short(f.qname)}|RiscvArchitecturalState(..)", f.loc(c), f"{short(f.qname)} builds a RiscvArchitecturalState "
+                        f"{'without' if a is None else 'with a constant'} detect_data_hazards: the simulation's flag is lost for what runs on that state")
     from ..pipelinerules import five_stage_config
     cfg = five_stage_config(ctx)
     id_calls = [c for c in cfg["stage_calls"] if m.resolve_class(st.module, c.func) is idc]
